@@ -58,7 +58,7 @@ def gen_seq(rnd, opt, budget, depth):
         if budget[0] <= 0 or rnd.random() < opt.get('p_stop', .25):
             seq.append([item, None]); return seq
         k = rnd.random()
-        if item['k'] == 'elem' and item['name'] not in VOID and not item['slash'] and k < opt.get('p_child', .45): op = '>'
+        if item['k'] == 'elem' and not item['slash'] and k < opt.get('p_child', .45) and (item['name'] not in VOID or rnd.random() < opt.get('p_void_child', 0)): op = '>'
         elif k < .85: op = '+'
         else: op = '^' * rnd.choice([1, 1, 2, 3])
         seq.append([item, op])
@@ -194,7 +194,7 @@ def tag_sequence(forest, void=VOID):
     seq = []
     for el in forest:
         seq.append(('open', el['name'].lower()))
-        if el['name'].lower() in void or el['slash']: continue
+        if (el['name'].lower() in void or el['slash']) and not el['kids']: continue       # a self-closing element that was given children is written as a pair
         seq += tag_sequence(el['kids'], void)
         seq.append(('close', el['name'].lower()))
     return seq
